@@ -290,3 +290,66 @@ func Harness_C20_intersect() {
 		vhReach("not-contained")
 	}
 }
+
+// ---- spline fitter, control-flow part (C20) ----
+
+// Harness_C20_fit: the real FitSpline on an arbitrary strictly y-monotone path of NP points (what
+// Shortest returns, C19) with zero tangents (as phase 5 passes them). With SUMMARY_CONTAINED = 1 the
+// containment verdict of every candidate curve is an arbitrary boolean, so the claim covers every
+// sequence of verdicts and every barrier set: the recursion terminates (unwinding queries), no index
+// is out of range, at most NP-1 pieces are returned, the first starts at the path's first point, the
+// last ends at its last point and consecutive pieces join end to end.
+func Harness_C20_fit() {
+	n := vhConst("NP")
+	var path []P
+	if k := vhConst("PATH"); k >= 0 {
+		// concrete zigzag paths (what Shortest returns in a stepped corridor); the symbolic dimension is then the
+		// sequence of containment verdicts alone
+		tab := [][]P{
+			{{0, 0}, {4, 2}, {1, 5}},
+			{{0, 0}, {3, 1}, {3, 4}, {0, 6}},
+			{{2, 0}, {0, 2}, {5, 3}, {1, 6}, {4, 8}},
+			{{0, 0}, {1, 1}, {2, 3}, {2, 4}, {6, 5}, {7, 9}},
+			{{5, 0}, {4, 1}, {3, 2}, {2, 3}, {1, 4}, {0, 5}, {0, 6}},
+			{{0, 0}, {0, 3}, {0, 7}},
+		}
+		path = tab[k]
+		n = len(path)
+	} else {
+		path = make([]P, n)
+		for i := range path {
+			path[i] = P{vhReal("px", -8, 8), vhReal("py", -8, 8)}
+			if i > 0 {
+				vhAssume(path[i].Y >= path[i-1].Y+1)
+			}
+		}
+	}
+	if vhConst("PANICS") == 1 {
+		vhCheckPanics()
+	}
+	pieces := FitSpline(path, P{}, P{}, nil)
+	vhReach("returned")
+	vhAssert(len(pieces) >= 1 && len(pieces) <= n-1, "between-one-and-n-minus-one-pieces")
+	if len(pieces) == 0 {
+		return
+	}
+	vhAssert(pieces[0].p0 == path[0], "first-piece-starts-at-first-path-point")
+	vhAssert(pieces[len(pieces)-1].p3 == path[n-1], "last-piece-ends-at-last-path-point")
+	for i := 1; i < len(pieces); i++ {
+		vhAssert(pieces[i-1].p3 == pieces[i].p0, "pieces-join-end-to-end")
+	}
+}
+
+// Harness_C20_tryfit2: a path of two points is always fitted (the base case of FitSpline's recursion):
+// tryfit can only give up on its first-iteration length test, and the control polygon is never shorter
+// than the chord (triangle inequality over three hypot values, decided by the solver).
+func Harness_C20_tryfit2() {
+	a := P{vhReal("ax", -8, 8), vhReal("ay", -8, 8)}
+	b := P{vhReal("bx", -8, 8), vhReal("by", -8, 8)}
+	v1 := P{vhReal("v1x", -8, 8), vhReal("v1y", -8, 8)}
+	v2 := P{vhReal("v2x", -8, 8), vhReal("v2y", -8, 8)}
+	bz, ok := tryfit(ctrlp{a, v1, v2, b}, []P{a, b}, nil)
+	vhReach("returned")
+	vhAssert(ok, "two-point-path-is-always-fitted")
+	vhAssert(bz.p0 == a && bz.p3 == b, "end-points-kept")
+}
